@@ -917,7 +917,7 @@ fn cmd_random(out: &str, steps: usize, seed: u64) {
     while done < steps {
         seg += 1;
         if seg % 4 == 0 {
-            let k = fvs::run_random(&mut rng, &mut tr, seg, (steps - done).min(40));
+            let k = fvs::run_random(&mut rng, &mut tr, seg, (steps - done).min(20));
             done += k;
             fvs_steps += k;
             continue;
